@@ -71,6 +71,11 @@ FIRST_LOOK = {  # recorded when the seed was first run, before any rule was touc
  "C31-13": "caught", "C31-14": "caught", "C31-15": "missed",
  "C07-13": "missed", "C07-14": "missed by C07, caught by C06", "C07-15": "caught",
  "C08-13": "missed", "C08-14": "caught", "C08-15": "missed by C08, caught by C10",
+ "C05-13": "caught", "C05-14": "missed", "C05-15": "missed",
+ "C27-13": "caught", "C27-14": "caught", "C27-15": "caught",
+ "C13-13": "missed", "C13-14": "caught", "C13-15": "caught (by the floor of R13e: the escape table moved out of the switch the rule reads)",
+ "C15-13": "caught (by the floor of R15d)", "C15-14": "missed", "C15-15": "missed",
+ "C29-13": "caught", "C29-14": "missed by C29, caught by C28 (an alarm on an assertion that a closure predicate does guard)", "C29-15": "caught",
  "C10-10": "missed", "C10-11": "missed", "C10-12": "unknown-shape alarm only (a false one: R10e took `Pos{}` in reset() for state; corrected)",
 }
 def key(d):
